@@ -652,6 +652,39 @@ func (e *absEnv) call(fn *ssa.Function, args []aval, free []aval, depth int) ava
 					out = append(out, e.val(fr, r))
 				}
 				return out
+			case *ssa.TypeAssert:
+				x := e.val(fr, t.X)
+				okv, known := false, false
+				var val aval = aunk{"type assertion"}
+				switch v := x.(type) {
+				case anil:
+					okv, known = false, true
+					val = zeroOf(t.AssertedType)
+				case aiface:
+					known = true
+					if it, isI := underlying(t.AssertedType).(*types.Interface); isI {
+						okv = types.Implements(v.typ, it)
+						val = v
+					} else {
+						okv = types.Identical(v.typ, t.AssertedType)
+						val = v.val
+					}
+					if !okv {
+						val = zeroOf(t.AssertedType)
+					}
+				}
+				switch {
+				case t.CommaOk && known:
+					fr.regs[t] = atuple{val, abool(okv)}
+				case t.CommaOk:
+					fr.regs[t] = atuple{aunk{"type assertion on " + describeAval(x)}, aunk{"type assertion on " + describeAval(x)}}
+				case known && okv:
+					fr.regs[t] = val
+				case known:
+					e.abort("a type assertion that fails (panics) in %s", fn.Name())
+				default:
+					fr.regs[t] = aunk{"type assertion on " + describeAval(x)}
+				}
 			case *ssa.Defer, *ssa.RunDefers, *ssa.Go:
 				// deferred and concurrent calls are outside the abstraction (locks, logging)
 			case *ssa.Panic:
@@ -672,18 +705,26 @@ func (e *absEnv) call(fn *ssa.Function, args []aval, free []aval, depth int) ava
 func (e *absEnv) doCall(fr *absFrame, c *ssa.CallCommon, depth int) aval {
 	if c.IsInvoke() {
 		recv := e.val(fr, c.Value)
+		args0 := []aval{recv}
+		for _, a := range c.Args {
+			args0 = append(args0, e.val(fr, a))
+		}
+		if e.ext != nil {
+			if v, ok := e.ext("invoke:"+c.Method.Name(), args0); ok {
+				return v
+			}
+		}
 		if ifc, ok := recv.(aiface); ok {
-			if m := fr.fn.Prog.LookupMethod(ifc.typ, c.Method.Pkg(), c.Method.Name()); m != nil && len(m.Blocks) > 0 {
-				args := []aval{ifc.val}
-				for _, a := range c.Args {
-					args = append(args, e.val(fr, a))
-				}
-				if e.ext != nil {
-					if v, ok := e.ext(m.String(), args); ok {
-						return v
+			if sel := types.NewMethodSet(ifc.typ).Lookup(c.Method.Pkg(), c.Method.Name()); sel != nil {
+				if m := fr.fn.Prog.MethodValue(sel); m != nil && len(m.Blocks) > 0 {
+					args := append([]aval{ifc.val}, args0[1:]...)
+					if e.ext != nil {
+						if v, ok := e.ext(m.String(), args); ok {
+							return v
+						}
 					}
+					return e.call(m, args, nil, depth+1)
 				}
-				return e.call(m, args, nil, depth+1)
 			}
 		}
 		return aunk{"invoke " + c.Method.Name()}
@@ -735,7 +776,7 @@ func (e *absEnv) doCall(fr *absFrame, c *ssa.CallCommon, depth int) aval {
 				switch y := e.val(fr, c.Args[1]).(type) {
 				case avals:
 					for _, cl := range y.cells {
-						cells = append(cells, &aobj{name: "elem", typ: elem, f: map[string]aval{"": cl.f[""]}})
+						cells = append(cells, newVals([]aval{e.cellVal(cl)}, elem).cells...)
 					}
 				case anil:
 				default:
@@ -960,45 +1001,73 @@ func (e *absEnv) globalInit(g *ssa.Global) *aobj {
 	if g.Pkg == nil || !isModPkg(g.Pkg.Pkg.Path()) {
 		return nil
 	}
-	var val ssa.Value
+	// address path below the global: field names and constant indices
+	var pathOf func(v ssa.Value) (string, bool)
+	pathOf = func(v ssa.Value) (string, bool) {
+		switch t := v.(type) {
+		case *ssa.Global:
+			return "", t == g
+		case *ssa.FieldAddr:
+			p, ok := pathOf(t.X)
+			return joinPath(p, fieldName(t.X.Type(), t.Field)), ok
+		case *ssa.IndexAddr:
+			p, ok := pathOf(t.X)
+			c, isC := constInt(t.Index)
+			if !ok || !isC {
+				return "", false
+			}
+			return joinPath(p, fmt.Sprintf("#%d", c)), true
+		}
+		return "", false
+	}
+	o := &aobj{name: g.Name(), typ: g.Type().(*types.Pointer).Elem(), f: map[string]aval{}}
 	n := 0
+	trusted := true
 	for _, m := range g.Pkg.Members {
 		f, ok := m.(*ssa.Function)
 		if !ok {
 			continue
 		}
+		isInit := f.Name() == "init" || strings.HasPrefix(f.Name(), "init#")
 		for _, fn := range withClosures(f) {
 			allInstrs(fn, func(in ssa.Instruction) {
-				if st, ok := in.(*ssa.Store); ok && st.Addr == ssa.Value(g) {
-					n++
-					val = st.Val
+				st, ok := in.(*ssa.Store)
+				if !ok {
+					return
+				}
+				p, under := pathOf(st.Addr)
+				if !under {
+					return
+				}
+				if !isInit || fn != f {
+					trusted = false // assigned at run time: its value is not a constant of the program
+					return
+				}
+				n++
+				switch v := st.Val.(type) {
+				case *ssa.Function:
+					o.f[p] = afunc{v, nil}
+				case *ssa.Const:
+					o.f[p] = e.val(&absFrame{regs: map[ssa.Value]aval{}}, v)
+				case *ssa.MakeClosure:
+					if len(v.Bindings) == 0 {
+						o.f[p] = afunc{v.Fn.(*ssa.Function), nil}
+					} else {
+						o.f[p] = aunk{"initialiser of " + g.Name() + "." + p}
+					}
+				case *ssa.ChangeType:
+					if f2, ok := v.X.(*ssa.Function); ok {
+						o.f[p] = afunc{f2, nil}
+					} else {
+						o.f[p] = aunk{"initialiser of " + g.Name() + "." + p}
+					}
+				default:
+					o.f[p] = aunk{"initialiser of " + g.Name() + "." + p}
 				}
 			})
 		}
 	}
-	if n != 1 {
-		return nil
-	}
-	o := &aobj{name: g.Name(), typ: g.Type().(*types.Pointer).Elem(), f: map[string]aval{}}
-	switch v := val.(type) {
-	case *ssa.Function:
-		o.f[""] = afunc{v, nil}
-	case *ssa.Const:
-		fr := &absFrame{regs: map[ssa.Value]aval{}}
-		o.f[""] = e.val(fr, v)
-	case *ssa.MakeClosure:
-		if len(v.Bindings) == 0 {
-			o.f[""] = afunc{v.Fn.(*ssa.Function), nil}
-		} else {
-			return nil
-		}
-	case *ssa.ChangeType:
-		if f, ok := v.X.(*ssa.Function); ok {
-			o.f[""] = afunc{f, nil}
-		} else {
-			return nil
-		}
-	default:
+	if !trusted || n == 0 {
 		return nil
 	}
 	return o
